@@ -3,6 +3,9 @@
 From Coq Require Import List String ZArith Bool.
 Import ListNotations.
 
+(* helpers that gotrans translated because a listed function calls them register here; the lemmas unfold them *)
+Create HintDb gen_aux.
+
 (* result of a Go function that may panic: Ret v = returned normally, Panic msg = panic(msg) *)
 Inductive res (A : Type) : Type := Ret (a : A) | Panic (msg : string).
 Arguments Ret {A} a.
